@@ -9,7 +9,11 @@ def run(ctx):
     if not X.dev_fast():
         X.model_check(ctx, "K=3, level 2, one non-retryable failure", K=3, acc=("x",), level=2, maxlen=1,
                       fates=("ok", "fatal"))
+        X.model_check(ctx, "K=2, level 2, cancellation at every point", K=2, acc=("x",), level=2, maxlen=1,
+                      fates=("ok", "fatal"), cancel=True)
         if not ctx.quick():
+            X.model_check(ctx, "K=3, level 2, cancellation at every point", K=3, acc=("x",), level=2, maxlen=1,
+                          fates=("ok", "fatal"), cancel=True)
             X.model_check(ctx, "K=3, level 2, retryable / retry-exhausted / non-retryable failure", K=3, acc=("x",),
                           level=2, maxlen=1, fates=("ok", "fatal", "retry1", "retryx"), world=False)
             X.model_check(ctx, "K=3, level 3, two failing transactions", K=3, acc=("x",), level=3, maxlen=1,
@@ -28,6 +32,9 @@ def run(ctx):
     for i, level in enumerate((2, 3)):
         cases += X.generate(ctx, n, ctx.seed + 20 + i, K=3, acc=("x", "y"), level=level, maxlen=2,
                             fates=("ok", "fatal", "retry1", "retryx"), maxfail=1)
+    # cancellation: the canceler is called at a TLC-chosen point while transactions are in flight
+    cases += X.generate(ctx, ctx.pick(60, 600), ctx.seed + 25, K=3, acc=("x", "y"), level=2, maxlen=1,
+                        fates=("ok", "fatal"), maxfail=1, cancel=True)
     if not ctx.quick():
         cases += X.generate(ctx, n // 2, ctx.seed + 27, K=4, acc=("x", "y"), level=4, maxlen=1,
                             fates=("ok", "fatal", "retryx"), maxfail=2)
